@@ -1,7 +1,7 @@
 // C14 part (b) — the leak detector's report and misuse messages, assembled in a fixed 4096-byte buffer, never exceed
 // it and stay terminated; a report begun on a cleared buffer states the true total and says so when entries were dropped.
-// Decoder: rounds of { 0..80 misuse reports with long file names | optional startChecking() | 0..400 leaks with file
-//          names of 0..400 bytes | report(period) [| second report without clearing] } on a local detector.
+// Decoder: rounds of { 0..80 misuse reports with long file names | optional startChecking() | 0..400 (rarely ..3000) leaks
+//          of 0..64 (rarely ..5000) bytes with file names of 0..5000 bytes | report(period) [| second report] }.
 // Oracle:  canary after the buffer intact (hook), strlen <= 4095, positions_filled <= 4095; for a report begun on a
 //          cleared buffer: parsed total == model, listed entries subset of the model, "Too many" notice when fewer are
 //          listed than exist, malloc note iff a malloc leak exists.
@@ -48,7 +48,8 @@ std::vector<Entry> parse_entries(const std::string& t) {
 }
 
 std::string gen_file(Reader& r) {
-    uint32_t len = r.pick((const uint32_t[]){0, 1, 8, 20, 60, 120, 250, 400});
+    // lengths up to and beyond the 4096-byte report buffer itself
+    uint32_t len = r.pick((const uint32_t[]){0, 1, 8, 20, 60, 120, 250, 400, 1000, 3600, 4090, 4096, 5000});
     if (r.flag()) len = r.below(401);
     std::string s; for (uint32_t i = 0; i < len; i++) s.push_back("abcdefghij/._"[(i * 7 + len) % 13]);
     return s;
@@ -92,10 +93,10 @@ int run_case(Reader& r, bool& nontrivial, std::string& desc) {
         desc += sfmt("misuse x%u;", nmis);
         if (r.below(3) != 0) { det->startChecking(); det->enable(); cleared = true; desc += "clear;"; }
         // ---- leaks
-        uint32_t nleaks = r.below(4) == 0 ? r.below(401) : r.below(12);
+        uint32_t nleaks = r.below(4) == 0 ? (r.below(8) == 0 ? r.below(3001) : r.below(401)) : r.below(12);
         bool longnames = r.flag();
         for (uint32_t i = 0; i < nleaks; i++) {
-            int kind = (int)r.below(3); size_t size = r.below(65); int line = (int)r.below(100000);
+            int kind = (int)r.below(3); size_t size = r.below(16) == 0 ? r.pick((const size_t[]){65, 300, 1000, 5000}) : r.below(65); int line = (int)r.below(100000);
             names.emplace_back(new std::string(longnames ? gen_file(r) : std::string("f.c")));
             char* p = det->allocMemory(g_alloc[kind], size, names.back()->c_str(), (size_t)line, kind == 2);
             if (!p) { cleanup(); return verif::fail("C14:alloc-null", "allocMemory returned NULL"); }
